@@ -291,4 +291,54 @@ example : MeshOcc ⟨[0,1], [(1,1)]⟩ [0,2,1] [0,1] ∧ MeshOcc ⟨[0], []⟩ [
 example : ¬ Spec.SubShaded ⟨[0,1], [(1,1)]⟩ [0] 1 1 :=
   fun h => h.pointfree 1 (by decide) (by decide) (by decide)
 
+/-- `Patt.contained_in(*patts)` with mesh-pattern targets (`all(patt.contains(self) for patt in patts)`): a reported
+    `True` transfers to every permutation containing ANY ONE of the targets -/
+theorem containedInMeshes_sound (it : Item) (hw : C03.ItemWF it) (μs : List Mesh)
+    (hμ : ∀ μ ∈ μs, IsPerm μ.pattern) (h : Model.containedInMeshes it μs = .ok true)
+    (μ : Mesh) (hmem : μ ∈ μs) (σ : NSeq) (hσ : MeshContains σ μ) : C03.ItemHolds σ it := by
+  induction μs with
+  | nil => simp at hmem
+  | cons ν rest ih =>
+    unfold Model.containedInMeshes at h
+    cases hi : Model.meshContainsAll ν [it] with
+    | error e => simp [hi] at h
+    | ok b =>
+      cases b with
+      | false => simp [hi] at h
+      | true =>
+        simp only [hi] at h
+        rcases List.mem_cons.mp hmem with heq | hm
+        · subst heq
+          exact meshContainsAll_sound μ (hμ μ List.mem_cons_self) [it]
+            (by intro x hx; rw [List.mem_singleton.mp hx]; exact hw) hi σ hσ it List.mem_cons_self
+        · exact ih (fun x hx => hμ x (List.mem_cons_of_mem _ hx)) h hm
+
+/-- `Patt.avoided_by(*patts)` with mesh-pattern targets answers `True` exactly when no target is reported to
+    contain the item, i.e. it is the negation of `contained_in` target by target -/
+theorem avoidedByMeshes_iff (it : Item) (μs : List Mesh) :
+    Model.avoidedByMeshes it μs = .ok true → ∀ μ ∈ μs, Model.meshContainsItem μ it = .ok false := by
+  induction μs with
+  | nil => intro _ μ hμ; simp at hμ
+  | cons ν rest ih =>
+    intro h μ hmem
+    unfold Model.avoidedByMeshes at h
+    cases hi : Model.meshContainsItem ν it with
+    | error e => simp [Model.meshAvoidsAll, hi] at h
+    | ok b =>
+      cases b with
+      | true => simp [Model.meshAvoidsAll, hi] at h
+      | false =>
+        simp only [Model.meshAvoidsAll, hi] at h
+        rcases List.mem_cons.mp hmem with heq | hm
+        · subst heq; exact hi
+        · exact ih h μ hm
+
+/-- non-vacuity of `containedInMeshes_sound`: the unshaded point is inside both targets; the fully shaded point is
+    inside itself but not inside the unshaded `0 1` (the call the transitivity shortcut of seed C06-11 got wrong) -/
+example : Model.containedInMeshes (.mesh ⟨[0], []⟩) [⟨[0], [(0,0),(0,1),(1,0),(1,1)]⟩, ⟨[0,1], []⟩] = .ok true ∧
+    Model.containedInMeshes (.mesh ⟨[0], [(0,0),(0,1),(1,0),(1,1)]⟩)
+      [⟨[0], [(0,0),(0,1),(1,0),(1,1)]⟩, ⟨[0,1], []⟩] = .ok false ∧
+    Model.avoidedByMeshes (.mesh ⟨[0], [(0,0),(0,1),(1,0),(1,1)]⟩) [⟨[0,1], []⟩] = .ok true := by
+  refine ⟨by decide +kernel, by decide +kernel, by decide +kernel⟩
+
 end C06
